@@ -6,6 +6,7 @@ package tfx
 import (
 	"context"
 	"fmt"
+	"reflect"
 	"time"
 
 	"github.com/hashicorp/terraform-plugin-framework/attr"
@@ -250,7 +251,22 @@ func RecCopyFrom(suffix string, diags diag.Diagnostics, v attr.Value, ptr interf
 // RecCopyTo is called by the generated CopyTo<S> shims.
 func RecCopyTo(suffix string, diags diag.Diagnostics, field interface{}, t attr.Type, cur attr.Value) attr.Value {
 	seq++
-	ret := types.String{Value: fmt.Sprintf("hook:%s:%d", suffix, seq)}
+	// deterministic in the arguments, so that repeated conversions are comparable
+	ret := types.String{Value: fmt.Sprintf("hook:%s:%v", suffix, deref(field))}
 	Log = append(Log, HookCall{Hook: "CopyTo", Suffix: suffix, Field: field, Type: t, Current: cur, Returned: ret, DiagsNil: diags == nil})
 	return ret
+}
+
+func deref(v interface{}) interface{} {
+	rv := reflect.ValueOf(v)
+	for rv.IsValid() && rv.Kind() == reflect.Ptr {
+		if rv.IsNil() {
+			return nil
+		}
+		rv = rv.Elem()
+	}
+	if !rv.IsValid() {
+		return nil
+	}
+	return rv.Interface()
 }
